@@ -20,15 +20,16 @@ error, IsOnCurve (reported with n = sizeFr), the copy of S, the returned byte co
 PARAMETERS (not looked into): `pointSetBytes` / `pointSetBytesErr` (twistededwards PointAffine.SetBytes: receiver after the call and its
 error), `isOnCurve`, the curve parameters `edOrder` (+ edA, edD, edCofactor, edBase, unused); big.Int SetBytes / Cmp are exact integers.
 HYPOTHESES of the model theorems, stated explicitly: an abstraction map φ : G → ℕ × ℕ with `φ (pointSetBytes b) = EdParams.decompress sq b`
-(the model's decompression; C07's territory), `isOnCurve X = EdParams.onCurve (φ X)`, `pointSetBytesErr b = nil` for buffers of exactly
-sizeFr bytes (the Go function fails on short buffers only), and `edOrder` = the model's order. `_model` instantiates them with the
+(the model's decompression; C07's territory), `isOnCurve X = EdParams.onCurve (φ X)`, `pointSetBytesErr b = nil ↔ EdParams.hasX sq b` for buffers of exactly
+sizeFr bytes (the Go function fails on short buffers and, since gnark-crypto 5916472, when the ordinate has no abscissa), and `edOrder` = the model's order. `_model` instantiates them with the
 model's own dictionary (so they are satisfiable).
 
 `_shape`: generated def = template of Proofs/SigSignGen.lean at this package's size / modulus (`rfl`; a changed statement breaks it).
 `_setbytes`: generated = the answer read off `EdParams.sigParse` (Model/Sig.lean) on EVERY buffer: error names in the order of the Go
 text, (0, err) with the receiver untouched on every error but errNotOnCurve ((sizeFr, err), R already overwritten), (2·sizeFr, nil) otherwise.
 `_setbytes_ok` / `_setbytes_err`: exact acceptance and consumed length: sigParse accepts (k, R, s) ⇒ n = k = 2·sizeFr = len(buf),
-φ(sig.R) = R, sig.S = buf[sizeFr:] with big-endian value s; sigParse rejects with e ⇒ the Go error named by e, sig.S untouched.
+φ(sig.R) = R, sig.S = buf[sizeFr:] with big-endian value s; sigParse rejects with e ⇒ a non-nil error, the Go error named by e
+(for e = noSqrt: the error of PointAffine.SetBytes itself, handed on), sig.S untouched.
 
 KNOWN FINDINGS not hidden by this: SetBytes bounds the ordinate under the sign bit by fr.Modulus() and refuses y = 0, but a PUBLIC KEY's
 ordinate is never range-checked (PublicKey.SetBytes is not translated here; see bin/kf_data.py C12) — the theorem says nothing about keys.
@@ -50,15 +51,15 @@ theorem C12sign_bn254_setbytes_shape {G Fp : Type} [Add G] [Sub G] [Neg G] [Zero
 theorem C12sign_bn254_setbytes {G Fp : Type} [Add G] [Sub G] [Neg G] [Zero G] [SMul Int G] [Add Fp] [Sub Fp] [Mul Fp] [Inv Fp] [Zero Fp] [BEq Fp] (sq : Nat → Option Nat) (edA edD edCofactor : Fp) (edBase : G)
     (dec : Bytes → G) (decErr : Bytes → Res) (onC : G → Bool) (φ : G → Nat × Nat)
     (hdec : ∀ b, φ (dec b) = (SigParams.ed_bn254).decompress sq b) (honC : ∀ X, onC X = (SigParams.ed_bn254).onCurve (φ X))
-    (herr : ∀ b : Bytes, b.length = (SigParams.ed_bn254).size → decErr b = Res.ok) (R0 : G) (s0 buf : Bytes) (hs : s0.length = (SigParams.ed_bn254).size) :
-    eddsasig_bn254.Signature_SetBytes edA edD edCofactor ((SigParams.ed_bn254).order : Int) edBase dec decErr onC R0 s0 buf = edSigExpected (SigParams.ed_bn254) sq dec R0 s0 buf := by
+    (herr : ∀ b : Bytes, b.length = (SigParams.ed_bn254).size → (decErr b = Res.ok ↔ (SigParams.ed_bn254).hasX sq b = true)) (R0 : G) (s0 buf : Bytes) (hs : s0.length = (SigParams.ed_bn254).size) :
+    eddsasig_bn254.Signature_SetBytes edA edD edCofactor ((SigParams.ed_bn254).order : Int) edBase dec decErr onC R0 s0 buf = edSigExpected (SigParams.ed_bn254) sq dec decErr R0 s0 buf := by
   rw [C12sign_bn254_setbytes_shape]
   exact edSigSetBytesT_spec (SigParams.ed_bn254) (by decide) sq edA edD edCofactor edBase dec decErr onC φ hdec honC herr R0 s0 buf hs
 
 theorem C12sign_bn254_setbytes_ok {G Fp : Type} [Add G] [Sub G] [Neg G] [Zero G] [SMul Int G] [Add Fp] [Sub Fp] [Mul Fp] [Inv Fp] [Zero Fp] [BEq Fp] (sq : Nat → Option Nat) (edA edD edCofactor : Fp) (edBase : G)
     (dec : Bytes → G) (decErr : Bytes → Res) (onC : G → Bool) (φ : G → Nat × Nat)
     (hdec : ∀ b, φ (dec b) = (SigParams.ed_bn254).decompress sq b) (honC : ∀ X, onC X = (SigParams.ed_bn254).onCurve (φ X))
-    (herr : ∀ b : Bytes, b.length = (SigParams.ed_bn254).size → decErr b = Res.ok) (R0 : G) (s0 buf : Bytes) (hs : s0.length = (SigParams.ed_bn254).size)
+    (herr : ∀ b : Bytes, b.length = (SigParams.ed_bn254).size → (decErr b = Res.ok ↔ (SigParams.ed_bn254).hasX sq b = true)) (R0 : G) (s0 buf : Bytes) (hs : s0.length = (SigParams.ed_bn254).size)
     (k : Nat) (R : Nat × Nat) (s : Nat) (h : (SigParams.ed_bn254).sigParse sq buf = .ok (k, R, s)) :
     eddsasig_bn254.Signature_SetBytes edA edD edCofactor ((SigParams.ed_bn254).order : Int) edBase dec decErr onC R0 s0 buf
         = (((2 * (SigParams.ed_bn254).size : Nat) : Int), Res.ok, dec (buf.take (SigParams.ed_bn254).size), buf.drop (SigParams.ed_bn254).size) ∧
@@ -70,19 +71,21 @@ theorem C12sign_bn254_setbytes_ok {G Fp : Type} [Add G] [Sub G] [Neg G] [Zero G]
 theorem C12sign_bn254_setbytes_err {G Fp : Type} [Add G] [Sub G] [Neg G] [Zero G] [SMul Int G] [Add Fp] [Sub Fp] [Mul Fp] [Inv Fp] [Zero Fp] [BEq Fp] (sq : Nat → Option Nat) (edA edD edCofactor : Fp) (edBase : G)
     (dec : Bytes → G) (decErr : Bytes → Res) (onC : G → Bool) (φ : G → Nat × Nat)
     (hdec : ∀ b, φ (dec b) = (SigParams.ed_bn254).decompress sq b) (honC : ∀ X, onC X = (SigParams.ed_bn254).onCurve (φ X))
-    (herr : ∀ b : Bytes, b.length = (SigParams.ed_bn254).size → decErr b = Res.ok) (R0 : G) (s0 buf : Bytes) (hs : s0.length = (SigParams.ed_bn254).size)
+    (herr : ∀ b : Bytes, b.length = (SigParams.ed_bn254).size → (decErr b = Res.ok ↔ (SigParams.ed_bn254).hasX sq b = true)) (R0 : G) (s0 buf : Bytes) (hs : s0.length = (SigParams.ed_bn254).size)
     (e : Err) (h : (SigParams.ed_bn254).sigParse sq buf = .error e) :
-    (eddsasig_bn254.Signature_SetBytes edA edD edCofactor ((SigParams.ed_bn254).order : Int) edBase dec decErr onC R0 s0 buf).2.1 = Res.err (edErrName e) ∧
+    (e ≠ .noSqrt → (eddsasig_bn254.Signature_SetBytes edA edD edCofactor ((SigParams.ed_bn254).order : Int) edBase dec decErr onC R0 s0 buf).2.1 = Res.err (edErrName e)) ∧
+    (eddsasig_bn254.Signature_SetBytes edA edD edCofactor ((SigParams.ed_bn254).order : Int) edBase dec decErr onC R0 s0 buf).2.1 ≠ Res.ok ∧
     (eddsasig_bn254.Signature_SetBytes edA edD edCofactor ((SigParams.ed_bn254).order : Int) edBase dec decErr onC R0 s0 buf).2.2.2 = s0 := by
   rw [C12sign_bn254_setbytes_shape]
-  exact ⟨(edSigSetBytesT_err (SigParams.ed_bn254) (by decide) sq edA edD edCofactor edBase dec decErr onC φ hdec honC herr R0 s0 buf hs e h).1, (edSigSetBytesT_err (SigParams.ed_bn254) (by decide) sq edA edD edCofactor edBase dec decErr onC φ hdec honC herr R0 s0 buf hs e h).2.1⟩
+  have t := edSigSetBytesT_err (SigParams.ed_bn254) (by decide) sq edA edD edCofactor edBase dec decErr onC φ hdec honC herr R0 s0 buf hs e h
+  exact ⟨t.1, t.2.1, t.2.2.1⟩
 
 /-- non-vacuity: the hypotheses hold for the model's own dictionary, for every buffer -/
 theorem C12sign_bn254_setbytes_model (sm : Nat → Nat × Nat → Nat × Nat) (sq : Nat → Option Nat)
     (edA edD edCofactor : EF (SigParams.ed_bn254).q) (edBase R0 : EdG (SigParams.ed_bn254) sm) (s0 buf : Bytes) (hs : s0.length = (SigParams.ed_bn254).size) :
     eddsasig_bn254.Signature_SetBytes (G := EdG (SigParams.ed_bn254) sm) (Fp := EF (SigParams.ed_bn254).q) edA edD edCofactor ((SigParams.ed_bn254).order : Int) edBase
-        (fun b => ⟨(SigParams.ed_bn254).decompress sq b⟩) (fun _ => Res.ok) (fun X => (SigParams.ed_bn254).onCurve X.p) R0 s0 buf
-      = edSigExpected (SigParams.ed_bn254) sq (fun b => (⟨(SigParams.ed_bn254).decompress sq b⟩ : EdG (SigParams.ed_bn254) sm)) R0 s0 buf := by
+        (fun b => ⟨(SigParams.ed_bn254).decompress sq b⟩) (edDecErr (SigParams.ed_bn254) sq) (fun X => (SigParams.ed_bn254).onCurve X.p) R0 s0 buf
+      = edSigExpected (SigParams.ed_bn254) sq (fun b => (⟨(SigParams.ed_bn254).decompress sq b⟩ : EdG (SigParams.ed_bn254) sm)) (edDecErr (SigParams.ed_bn254) sq) R0 s0 buf := by
   rw [C12sign_bn254_setbytes_shape]
   exact edSigSetBytesT_model (SigParams.ed_bn254) (by decide) sm sq edA edD edCofactor edBase R0 s0 buf hs
 
@@ -97,15 +100,15 @@ theorem C12sign_bls12_377_setbytes_shape {G Fp : Type} [Add G] [Sub G] [Neg G] [
 theorem C12sign_bls12_377_setbytes {G Fp : Type} [Add G] [Sub G] [Neg G] [Zero G] [SMul Int G] [Add Fp] [Sub Fp] [Mul Fp] [Inv Fp] [Zero Fp] [BEq Fp] (sq : Nat → Option Nat) (edA edD edCofactor : Fp) (edBase : G)
     (dec : Bytes → G) (decErr : Bytes → Res) (onC : G → Bool) (φ : G → Nat × Nat)
     (hdec : ∀ b, φ (dec b) = (SigParams.ed_bls12_377).decompress sq b) (honC : ∀ X, onC X = (SigParams.ed_bls12_377).onCurve (φ X))
-    (herr : ∀ b : Bytes, b.length = (SigParams.ed_bls12_377).size → decErr b = Res.ok) (R0 : G) (s0 buf : Bytes) (hs : s0.length = (SigParams.ed_bls12_377).size) :
-    eddsasig_bls12_377.Signature_SetBytes edA edD edCofactor ((SigParams.ed_bls12_377).order : Int) edBase dec decErr onC R0 s0 buf = edSigExpected (SigParams.ed_bls12_377) sq dec R0 s0 buf := by
+    (herr : ∀ b : Bytes, b.length = (SigParams.ed_bls12_377).size → (decErr b = Res.ok ↔ (SigParams.ed_bls12_377).hasX sq b = true)) (R0 : G) (s0 buf : Bytes) (hs : s0.length = (SigParams.ed_bls12_377).size) :
+    eddsasig_bls12_377.Signature_SetBytes edA edD edCofactor ((SigParams.ed_bls12_377).order : Int) edBase dec decErr onC R0 s0 buf = edSigExpected (SigParams.ed_bls12_377) sq dec decErr R0 s0 buf := by
   rw [C12sign_bls12_377_setbytes_shape]
   exact edSigSetBytesT_spec (SigParams.ed_bls12_377) (by decide) sq edA edD edCofactor edBase dec decErr onC φ hdec honC herr R0 s0 buf hs
 
 theorem C12sign_bls12_377_setbytes_ok {G Fp : Type} [Add G] [Sub G] [Neg G] [Zero G] [SMul Int G] [Add Fp] [Sub Fp] [Mul Fp] [Inv Fp] [Zero Fp] [BEq Fp] (sq : Nat → Option Nat) (edA edD edCofactor : Fp) (edBase : G)
     (dec : Bytes → G) (decErr : Bytes → Res) (onC : G → Bool) (φ : G → Nat × Nat)
     (hdec : ∀ b, φ (dec b) = (SigParams.ed_bls12_377).decompress sq b) (honC : ∀ X, onC X = (SigParams.ed_bls12_377).onCurve (φ X))
-    (herr : ∀ b : Bytes, b.length = (SigParams.ed_bls12_377).size → decErr b = Res.ok) (R0 : G) (s0 buf : Bytes) (hs : s0.length = (SigParams.ed_bls12_377).size)
+    (herr : ∀ b : Bytes, b.length = (SigParams.ed_bls12_377).size → (decErr b = Res.ok ↔ (SigParams.ed_bls12_377).hasX sq b = true)) (R0 : G) (s0 buf : Bytes) (hs : s0.length = (SigParams.ed_bls12_377).size)
     (k : Nat) (R : Nat × Nat) (s : Nat) (h : (SigParams.ed_bls12_377).sigParse sq buf = .ok (k, R, s)) :
     eddsasig_bls12_377.Signature_SetBytes edA edD edCofactor ((SigParams.ed_bls12_377).order : Int) edBase dec decErr onC R0 s0 buf
         = (((2 * (SigParams.ed_bls12_377).size : Nat) : Int), Res.ok, dec (buf.take (SigParams.ed_bls12_377).size), buf.drop (SigParams.ed_bls12_377).size) ∧
@@ -117,19 +120,21 @@ theorem C12sign_bls12_377_setbytes_ok {G Fp : Type} [Add G] [Sub G] [Neg G] [Zer
 theorem C12sign_bls12_377_setbytes_err {G Fp : Type} [Add G] [Sub G] [Neg G] [Zero G] [SMul Int G] [Add Fp] [Sub Fp] [Mul Fp] [Inv Fp] [Zero Fp] [BEq Fp] (sq : Nat → Option Nat) (edA edD edCofactor : Fp) (edBase : G)
     (dec : Bytes → G) (decErr : Bytes → Res) (onC : G → Bool) (φ : G → Nat × Nat)
     (hdec : ∀ b, φ (dec b) = (SigParams.ed_bls12_377).decompress sq b) (honC : ∀ X, onC X = (SigParams.ed_bls12_377).onCurve (φ X))
-    (herr : ∀ b : Bytes, b.length = (SigParams.ed_bls12_377).size → decErr b = Res.ok) (R0 : G) (s0 buf : Bytes) (hs : s0.length = (SigParams.ed_bls12_377).size)
+    (herr : ∀ b : Bytes, b.length = (SigParams.ed_bls12_377).size → (decErr b = Res.ok ↔ (SigParams.ed_bls12_377).hasX sq b = true)) (R0 : G) (s0 buf : Bytes) (hs : s0.length = (SigParams.ed_bls12_377).size)
     (e : Err) (h : (SigParams.ed_bls12_377).sigParse sq buf = .error e) :
-    (eddsasig_bls12_377.Signature_SetBytes edA edD edCofactor ((SigParams.ed_bls12_377).order : Int) edBase dec decErr onC R0 s0 buf).2.1 = Res.err (edErrName e) ∧
+    (e ≠ .noSqrt → (eddsasig_bls12_377.Signature_SetBytes edA edD edCofactor ((SigParams.ed_bls12_377).order : Int) edBase dec decErr onC R0 s0 buf).2.1 = Res.err (edErrName e)) ∧
+    (eddsasig_bls12_377.Signature_SetBytes edA edD edCofactor ((SigParams.ed_bls12_377).order : Int) edBase dec decErr onC R0 s0 buf).2.1 ≠ Res.ok ∧
     (eddsasig_bls12_377.Signature_SetBytes edA edD edCofactor ((SigParams.ed_bls12_377).order : Int) edBase dec decErr onC R0 s0 buf).2.2.2 = s0 := by
   rw [C12sign_bls12_377_setbytes_shape]
-  exact ⟨(edSigSetBytesT_err (SigParams.ed_bls12_377) (by decide) sq edA edD edCofactor edBase dec decErr onC φ hdec honC herr R0 s0 buf hs e h).1, (edSigSetBytesT_err (SigParams.ed_bls12_377) (by decide) sq edA edD edCofactor edBase dec decErr onC φ hdec honC herr R0 s0 buf hs e h).2.1⟩
+  have t := edSigSetBytesT_err (SigParams.ed_bls12_377) (by decide) sq edA edD edCofactor edBase dec decErr onC φ hdec honC herr R0 s0 buf hs e h
+  exact ⟨t.1, t.2.1, t.2.2.1⟩
 
 /-- non-vacuity: the hypotheses hold for the model's own dictionary, for every buffer -/
 theorem C12sign_bls12_377_setbytes_model (sm : Nat → Nat × Nat → Nat × Nat) (sq : Nat → Option Nat)
     (edA edD edCofactor : EF (SigParams.ed_bls12_377).q) (edBase R0 : EdG (SigParams.ed_bls12_377) sm) (s0 buf : Bytes) (hs : s0.length = (SigParams.ed_bls12_377).size) :
     eddsasig_bls12_377.Signature_SetBytes (G := EdG (SigParams.ed_bls12_377) sm) (Fp := EF (SigParams.ed_bls12_377).q) edA edD edCofactor ((SigParams.ed_bls12_377).order : Int) edBase
-        (fun b => ⟨(SigParams.ed_bls12_377).decompress sq b⟩) (fun _ => Res.ok) (fun X => (SigParams.ed_bls12_377).onCurve X.p) R0 s0 buf
-      = edSigExpected (SigParams.ed_bls12_377) sq (fun b => (⟨(SigParams.ed_bls12_377).decompress sq b⟩ : EdG (SigParams.ed_bls12_377) sm)) R0 s0 buf := by
+        (fun b => ⟨(SigParams.ed_bls12_377).decompress sq b⟩) (edDecErr (SigParams.ed_bls12_377) sq) (fun X => (SigParams.ed_bls12_377).onCurve X.p) R0 s0 buf
+      = edSigExpected (SigParams.ed_bls12_377) sq (fun b => (⟨(SigParams.ed_bls12_377).decompress sq b⟩ : EdG (SigParams.ed_bls12_377) sm)) (edDecErr (SigParams.ed_bls12_377) sq) R0 s0 buf := by
   rw [C12sign_bls12_377_setbytes_shape]
   exact edSigSetBytesT_model (SigParams.ed_bls12_377) (by decide) sm sq edA edD edCofactor edBase R0 s0 buf hs
 
@@ -144,15 +149,15 @@ theorem C12sign_bls12_381_setbytes_shape {G Fp : Type} [Add G] [Sub G] [Neg G] [
 theorem C12sign_bls12_381_setbytes {G Fp : Type} [Add G] [Sub G] [Neg G] [Zero G] [SMul Int G] [Add Fp] [Sub Fp] [Mul Fp] [Inv Fp] [Zero Fp] [BEq Fp] (sq : Nat → Option Nat) (edA edD edCofactor : Fp) (edBase : G)
     (dec : Bytes → G) (decErr : Bytes → Res) (onC : G → Bool) (φ : G → Nat × Nat)
     (hdec : ∀ b, φ (dec b) = (SigParams.ed_bls12_381).decompress sq b) (honC : ∀ X, onC X = (SigParams.ed_bls12_381).onCurve (φ X))
-    (herr : ∀ b : Bytes, b.length = (SigParams.ed_bls12_381).size → decErr b = Res.ok) (R0 : G) (s0 buf : Bytes) (hs : s0.length = (SigParams.ed_bls12_381).size) :
-    eddsasig_bls12_381.Signature_SetBytes edA edD edCofactor ((SigParams.ed_bls12_381).order : Int) edBase dec decErr onC R0 s0 buf = edSigExpected (SigParams.ed_bls12_381) sq dec R0 s0 buf := by
+    (herr : ∀ b : Bytes, b.length = (SigParams.ed_bls12_381).size → (decErr b = Res.ok ↔ (SigParams.ed_bls12_381).hasX sq b = true)) (R0 : G) (s0 buf : Bytes) (hs : s0.length = (SigParams.ed_bls12_381).size) :
+    eddsasig_bls12_381.Signature_SetBytes edA edD edCofactor ((SigParams.ed_bls12_381).order : Int) edBase dec decErr onC R0 s0 buf = edSigExpected (SigParams.ed_bls12_381) sq dec decErr R0 s0 buf := by
   rw [C12sign_bls12_381_setbytes_shape]
   exact edSigSetBytesT_spec (SigParams.ed_bls12_381) (by decide) sq edA edD edCofactor edBase dec decErr onC φ hdec honC herr R0 s0 buf hs
 
 theorem C12sign_bls12_381_setbytes_ok {G Fp : Type} [Add G] [Sub G] [Neg G] [Zero G] [SMul Int G] [Add Fp] [Sub Fp] [Mul Fp] [Inv Fp] [Zero Fp] [BEq Fp] (sq : Nat → Option Nat) (edA edD edCofactor : Fp) (edBase : G)
     (dec : Bytes → G) (decErr : Bytes → Res) (onC : G → Bool) (φ : G → Nat × Nat)
     (hdec : ∀ b, φ (dec b) = (SigParams.ed_bls12_381).decompress sq b) (honC : ∀ X, onC X = (SigParams.ed_bls12_381).onCurve (φ X))
-    (herr : ∀ b : Bytes, b.length = (SigParams.ed_bls12_381).size → decErr b = Res.ok) (R0 : G) (s0 buf : Bytes) (hs : s0.length = (SigParams.ed_bls12_381).size)
+    (herr : ∀ b : Bytes, b.length = (SigParams.ed_bls12_381).size → (decErr b = Res.ok ↔ (SigParams.ed_bls12_381).hasX sq b = true)) (R0 : G) (s0 buf : Bytes) (hs : s0.length = (SigParams.ed_bls12_381).size)
     (k : Nat) (R : Nat × Nat) (s : Nat) (h : (SigParams.ed_bls12_381).sigParse sq buf = .ok (k, R, s)) :
     eddsasig_bls12_381.Signature_SetBytes edA edD edCofactor ((SigParams.ed_bls12_381).order : Int) edBase dec decErr onC R0 s0 buf
         = (((2 * (SigParams.ed_bls12_381).size : Nat) : Int), Res.ok, dec (buf.take (SigParams.ed_bls12_381).size), buf.drop (SigParams.ed_bls12_381).size) ∧
@@ -164,19 +169,21 @@ theorem C12sign_bls12_381_setbytes_ok {G Fp : Type} [Add G] [Sub G] [Neg G] [Zer
 theorem C12sign_bls12_381_setbytes_err {G Fp : Type} [Add G] [Sub G] [Neg G] [Zero G] [SMul Int G] [Add Fp] [Sub Fp] [Mul Fp] [Inv Fp] [Zero Fp] [BEq Fp] (sq : Nat → Option Nat) (edA edD edCofactor : Fp) (edBase : G)
     (dec : Bytes → G) (decErr : Bytes → Res) (onC : G → Bool) (φ : G → Nat × Nat)
     (hdec : ∀ b, φ (dec b) = (SigParams.ed_bls12_381).decompress sq b) (honC : ∀ X, onC X = (SigParams.ed_bls12_381).onCurve (φ X))
-    (herr : ∀ b : Bytes, b.length = (SigParams.ed_bls12_381).size → decErr b = Res.ok) (R0 : G) (s0 buf : Bytes) (hs : s0.length = (SigParams.ed_bls12_381).size)
+    (herr : ∀ b : Bytes, b.length = (SigParams.ed_bls12_381).size → (decErr b = Res.ok ↔ (SigParams.ed_bls12_381).hasX sq b = true)) (R0 : G) (s0 buf : Bytes) (hs : s0.length = (SigParams.ed_bls12_381).size)
     (e : Err) (h : (SigParams.ed_bls12_381).sigParse sq buf = .error e) :
-    (eddsasig_bls12_381.Signature_SetBytes edA edD edCofactor ((SigParams.ed_bls12_381).order : Int) edBase dec decErr onC R0 s0 buf).2.1 = Res.err (edErrName e) ∧
+    (e ≠ .noSqrt → (eddsasig_bls12_381.Signature_SetBytes edA edD edCofactor ((SigParams.ed_bls12_381).order : Int) edBase dec decErr onC R0 s0 buf).2.1 = Res.err (edErrName e)) ∧
+    (eddsasig_bls12_381.Signature_SetBytes edA edD edCofactor ((SigParams.ed_bls12_381).order : Int) edBase dec decErr onC R0 s0 buf).2.1 ≠ Res.ok ∧
     (eddsasig_bls12_381.Signature_SetBytes edA edD edCofactor ((SigParams.ed_bls12_381).order : Int) edBase dec decErr onC R0 s0 buf).2.2.2 = s0 := by
   rw [C12sign_bls12_381_setbytes_shape]
-  exact ⟨(edSigSetBytesT_err (SigParams.ed_bls12_381) (by decide) sq edA edD edCofactor edBase dec decErr onC φ hdec honC herr R0 s0 buf hs e h).1, (edSigSetBytesT_err (SigParams.ed_bls12_381) (by decide) sq edA edD edCofactor edBase dec decErr onC φ hdec honC herr R0 s0 buf hs e h).2.1⟩
+  have t := edSigSetBytesT_err (SigParams.ed_bls12_381) (by decide) sq edA edD edCofactor edBase dec decErr onC φ hdec honC herr R0 s0 buf hs e h
+  exact ⟨t.1, t.2.1, t.2.2.1⟩
 
 /-- non-vacuity: the hypotheses hold for the model's own dictionary, for every buffer -/
 theorem C12sign_bls12_381_setbytes_model (sm : Nat → Nat × Nat → Nat × Nat) (sq : Nat → Option Nat)
     (edA edD edCofactor : EF (SigParams.ed_bls12_381).q) (edBase R0 : EdG (SigParams.ed_bls12_381) sm) (s0 buf : Bytes) (hs : s0.length = (SigParams.ed_bls12_381).size) :
     eddsasig_bls12_381.Signature_SetBytes (G := EdG (SigParams.ed_bls12_381) sm) (Fp := EF (SigParams.ed_bls12_381).q) edA edD edCofactor ((SigParams.ed_bls12_381).order : Int) edBase
-        (fun b => ⟨(SigParams.ed_bls12_381).decompress sq b⟩) (fun _ => Res.ok) (fun X => (SigParams.ed_bls12_381).onCurve X.p) R0 s0 buf
-      = edSigExpected (SigParams.ed_bls12_381) sq (fun b => (⟨(SigParams.ed_bls12_381).decompress sq b⟩ : EdG (SigParams.ed_bls12_381) sm)) R0 s0 buf := by
+        (fun b => ⟨(SigParams.ed_bls12_381).decompress sq b⟩) (edDecErr (SigParams.ed_bls12_381) sq) (fun X => (SigParams.ed_bls12_381).onCurve X.p) R0 s0 buf
+      = edSigExpected (SigParams.ed_bls12_381) sq (fun b => (⟨(SigParams.ed_bls12_381).decompress sq b⟩ : EdG (SigParams.ed_bls12_381) sm)) (edDecErr (SigParams.ed_bls12_381) sq) R0 s0 buf := by
   rw [C12sign_bls12_381_setbytes_shape]
   exact edSigSetBytesT_model (SigParams.ed_bls12_381) (by decide) sm sq edA edD edCofactor edBase R0 s0 buf hs
 
@@ -191,15 +198,15 @@ theorem C12sign_bandersnatch_setbytes_shape {G Fp : Type} [Add G] [Sub G] [Neg G
 theorem C12sign_bandersnatch_setbytes {G Fp : Type} [Add G] [Sub G] [Neg G] [Zero G] [SMul Int G] [Add Fp] [Sub Fp] [Mul Fp] [Inv Fp] [Zero Fp] [BEq Fp] (sq : Nat → Option Nat) (edA edD edCofactor : Fp) (edBase : G)
     (dec : Bytes → G) (decErr : Bytes → Res) (onC : G → Bool) (φ : G → Nat × Nat)
     (hdec : ∀ b, φ (dec b) = (SigParams.ed_bandersnatch).decompress sq b) (honC : ∀ X, onC X = (SigParams.ed_bandersnatch).onCurve (φ X))
-    (herr : ∀ b : Bytes, b.length = (SigParams.ed_bandersnatch).size → decErr b = Res.ok) (R0 : G) (s0 buf : Bytes) (hs : s0.length = (SigParams.ed_bandersnatch).size) :
-    eddsasig_bandersnatch.Signature_SetBytes edA edD edCofactor ((SigParams.ed_bandersnatch).order : Int) edBase dec decErr onC R0 s0 buf = edSigExpected (SigParams.ed_bandersnatch) sq dec R0 s0 buf := by
+    (herr : ∀ b : Bytes, b.length = (SigParams.ed_bandersnatch).size → (decErr b = Res.ok ↔ (SigParams.ed_bandersnatch).hasX sq b = true)) (R0 : G) (s0 buf : Bytes) (hs : s0.length = (SigParams.ed_bandersnatch).size) :
+    eddsasig_bandersnatch.Signature_SetBytes edA edD edCofactor ((SigParams.ed_bandersnatch).order : Int) edBase dec decErr onC R0 s0 buf = edSigExpected (SigParams.ed_bandersnatch) sq dec decErr R0 s0 buf := by
   rw [C12sign_bandersnatch_setbytes_shape]
   exact edSigSetBytesT_spec (SigParams.ed_bandersnatch) (by decide) sq edA edD edCofactor edBase dec decErr onC φ hdec honC herr R0 s0 buf hs
 
 theorem C12sign_bandersnatch_setbytes_ok {G Fp : Type} [Add G] [Sub G] [Neg G] [Zero G] [SMul Int G] [Add Fp] [Sub Fp] [Mul Fp] [Inv Fp] [Zero Fp] [BEq Fp] (sq : Nat → Option Nat) (edA edD edCofactor : Fp) (edBase : G)
     (dec : Bytes → G) (decErr : Bytes → Res) (onC : G → Bool) (φ : G → Nat × Nat)
     (hdec : ∀ b, φ (dec b) = (SigParams.ed_bandersnatch).decompress sq b) (honC : ∀ X, onC X = (SigParams.ed_bandersnatch).onCurve (φ X))
-    (herr : ∀ b : Bytes, b.length = (SigParams.ed_bandersnatch).size → decErr b = Res.ok) (R0 : G) (s0 buf : Bytes) (hs : s0.length = (SigParams.ed_bandersnatch).size)
+    (herr : ∀ b : Bytes, b.length = (SigParams.ed_bandersnatch).size → (decErr b = Res.ok ↔ (SigParams.ed_bandersnatch).hasX sq b = true)) (R0 : G) (s0 buf : Bytes) (hs : s0.length = (SigParams.ed_bandersnatch).size)
     (k : Nat) (R : Nat × Nat) (s : Nat) (h : (SigParams.ed_bandersnatch).sigParse sq buf = .ok (k, R, s)) :
     eddsasig_bandersnatch.Signature_SetBytes edA edD edCofactor ((SigParams.ed_bandersnatch).order : Int) edBase dec decErr onC R0 s0 buf
         = (((2 * (SigParams.ed_bandersnatch).size : Nat) : Int), Res.ok, dec (buf.take (SigParams.ed_bandersnatch).size), buf.drop (SigParams.ed_bandersnatch).size) ∧
@@ -211,19 +218,21 @@ theorem C12sign_bandersnatch_setbytes_ok {G Fp : Type} [Add G] [Sub G] [Neg G] [
 theorem C12sign_bandersnatch_setbytes_err {G Fp : Type} [Add G] [Sub G] [Neg G] [Zero G] [SMul Int G] [Add Fp] [Sub Fp] [Mul Fp] [Inv Fp] [Zero Fp] [BEq Fp] (sq : Nat → Option Nat) (edA edD edCofactor : Fp) (edBase : G)
     (dec : Bytes → G) (decErr : Bytes → Res) (onC : G → Bool) (φ : G → Nat × Nat)
     (hdec : ∀ b, φ (dec b) = (SigParams.ed_bandersnatch).decompress sq b) (honC : ∀ X, onC X = (SigParams.ed_bandersnatch).onCurve (φ X))
-    (herr : ∀ b : Bytes, b.length = (SigParams.ed_bandersnatch).size → decErr b = Res.ok) (R0 : G) (s0 buf : Bytes) (hs : s0.length = (SigParams.ed_bandersnatch).size)
+    (herr : ∀ b : Bytes, b.length = (SigParams.ed_bandersnatch).size → (decErr b = Res.ok ↔ (SigParams.ed_bandersnatch).hasX sq b = true)) (R0 : G) (s0 buf : Bytes) (hs : s0.length = (SigParams.ed_bandersnatch).size)
     (e : Err) (h : (SigParams.ed_bandersnatch).sigParse sq buf = .error e) :
-    (eddsasig_bandersnatch.Signature_SetBytes edA edD edCofactor ((SigParams.ed_bandersnatch).order : Int) edBase dec decErr onC R0 s0 buf).2.1 = Res.err (edErrName e) ∧
+    (e ≠ .noSqrt → (eddsasig_bandersnatch.Signature_SetBytes edA edD edCofactor ((SigParams.ed_bandersnatch).order : Int) edBase dec decErr onC R0 s0 buf).2.1 = Res.err (edErrName e)) ∧
+    (eddsasig_bandersnatch.Signature_SetBytes edA edD edCofactor ((SigParams.ed_bandersnatch).order : Int) edBase dec decErr onC R0 s0 buf).2.1 ≠ Res.ok ∧
     (eddsasig_bandersnatch.Signature_SetBytes edA edD edCofactor ((SigParams.ed_bandersnatch).order : Int) edBase dec decErr onC R0 s0 buf).2.2.2 = s0 := by
   rw [C12sign_bandersnatch_setbytes_shape]
-  exact ⟨(edSigSetBytesT_err (SigParams.ed_bandersnatch) (by decide) sq edA edD edCofactor edBase dec decErr onC φ hdec honC herr R0 s0 buf hs e h).1, (edSigSetBytesT_err (SigParams.ed_bandersnatch) (by decide) sq edA edD edCofactor edBase dec decErr onC φ hdec honC herr R0 s0 buf hs e h).2.1⟩
+  have t := edSigSetBytesT_err (SigParams.ed_bandersnatch) (by decide) sq edA edD edCofactor edBase dec decErr onC φ hdec honC herr R0 s0 buf hs e h
+  exact ⟨t.1, t.2.1, t.2.2.1⟩
 
 /-- non-vacuity: the hypotheses hold for the model's own dictionary, for every buffer -/
 theorem C12sign_bandersnatch_setbytes_model (sm : Nat → Nat × Nat → Nat × Nat) (sq : Nat → Option Nat)
     (edA edD edCofactor : EF (SigParams.ed_bandersnatch).q) (edBase R0 : EdG (SigParams.ed_bandersnatch) sm) (s0 buf : Bytes) (hs : s0.length = (SigParams.ed_bandersnatch).size) :
     eddsasig_bandersnatch.Signature_SetBytes (G := EdG (SigParams.ed_bandersnatch) sm) (Fp := EF (SigParams.ed_bandersnatch).q) edA edD edCofactor ((SigParams.ed_bandersnatch).order : Int) edBase
-        (fun b => ⟨(SigParams.ed_bandersnatch).decompress sq b⟩) (fun _ => Res.ok) (fun X => (SigParams.ed_bandersnatch).onCurve X.p) R0 s0 buf
-      = edSigExpected (SigParams.ed_bandersnatch) sq (fun b => (⟨(SigParams.ed_bandersnatch).decompress sq b⟩ : EdG (SigParams.ed_bandersnatch) sm)) R0 s0 buf := by
+        (fun b => ⟨(SigParams.ed_bandersnatch).decompress sq b⟩) (edDecErr (SigParams.ed_bandersnatch) sq) (fun X => (SigParams.ed_bandersnatch).onCurve X.p) R0 s0 buf
+      = edSigExpected (SigParams.ed_bandersnatch) sq (fun b => (⟨(SigParams.ed_bandersnatch).decompress sq b⟩ : EdG (SigParams.ed_bandersnatch) sm)) (edDecErr (SigParams.ed_bandersnatch) sq) R0 s0 buf := by
   rw [C12sign_bandersnatch_setbytes_shape]
   exact edSigSetBytesT_model (SigParams.ed_bandersnatch) (by decide) sm sq edA edD edCofactor edBase R0 s0 buf hs
 
@@ -238,15 +247,15 @@ theorem C12sign_bls24_315_setbytes_shape {G Fp : Type} [Add G] [Sub G] [Neg G] [
 theorem C12sign_bls24_315_setbytes {G Fp : Type} [Add G] [Sub G] [Neg G] [Zero G] [SMul Int G] [Add Fp] [Sub Fp] [Mul Fp] [Inv Fp] [Zero Fp] [BEq Fp] (sq : Nat → Option Nat) (edA edD edCofactor : Fp) (edBase : G)
     (dec : Bytes → G) (decErr : Bytes → Res) (onC : G → Bool) (φ : G → Nat × Nat)
     (hdec : ∀ b, φ (dec b) = (SigParams.ed_bls24_315).decompress sq b) (honC : ∀ X, onC X = (SigParams.ed_bls24_315).onCurve (φ X))
-    (herr : ∀ b : Bytes, b.length = (SigParams.ed_bls24_315).size → decErr b = Res.ok) (R0 : G) (s0 buf : Bytes) (hs : s0.length = (SigParams.ed_bls24_315).size) :
-    eddsasig_bls24_315.Signature_SetBytes edA edD edCofactor ((SigParams.ed_bls24_315).order : Int) edBase dec decErr onC R0 s0 buf = edSigExpected (SigParams.ed_bls24_315) sq dec R0 s0 buf := by
+    (herr : ∀ b : Bytes, b.length = (SigParams.ed_bls24_315).size → (decErr b = Res.ok ↔ (SigParams.ed_bls24_315).hasX sq b = true)) (R0 : G) (s0 buf : Bytes) (hs : s0.length = (SigParams.ed_bls24_315).size) :
+    eddsasig_bls24_315.Signature_SetBytes edA edD edCofactor ((SigParams.ed_bls24_315).order : Int) edBase dec decErr onC R0 s0 buf = edSigExpected (SigParams.ed_bls24_315) sq dec decErr R0 s0 buf := by
   rw [C12sign_bls24_315_setbytes_shape]
   exact edSigSetBytesT_spec (SigParams.ed_bls24_315) (by decide) sq edA edD edCofactor edBase dec decErr onC φ hdec honC herr R0 s0 buf hs
 
 theorem C12sign_bls24_315_setbytes_ok {G Fp : Type} [Add G] [Sub G] [Neg G] [Zero G] [SMul Int G] [Add Fp] [Sub Fp] [Mul Fp] [Inv Fp] [Zero Fp] [BEq Fp] (sq : Nat → Option Nat) (edA edD edCofactor : Fp) (edBase : G)
     (dec : Bytes → G) (decErr : Bytes → Res) (onC : G → Bool) (φ : G → Nat × Nat)
     (hdec : ∀ b, φ (dec b) = (SigParams.ed_bls24_315).decompress sq b) (honC : ∀ X, onC X = (SigParams.ed_bls24_315).onCurve (φ X))
-    (herr : ∀ b : Bytes, b.length = (SigParams.ed_bls24_315).size → decErr b = Res.ok) (R0 : G) (s0 buf : Bytes) (hs : s0.length = (SigParams.ed_bls24_315).size)
+    (herr : ∀ b : Bytes, b.length = (SigParams.ed_bls24_315).size → (decErr b = Res.ok ↔ (SigParams.ed_bls24_315).hasX sq b = true)) (R0 : G) (s0 buf : Bytes) (hs : s0.length = (SigParams.ed_bls24_315).size)
     (k : Nat) (R : Nat × Nat) (s : Nat) (h : (SigParams.ed_bls24_315).sigParse sq buf = .ok (k, R, s)) :
     eddsasig_bls24_315.Signature_SetBytes edA edD edCofactor ((SigParams.ed_bls24_315).order : Int) edBase dec decErr onC R0 s0 buf
         = (((2 * (SigParams.ed_bls24_315).size : Nat) : Int), Res.ok, dec (buf.take (SigParams.ed_bls24_315).size), buf.drop (SigParams.ed_bls24_315).size) ∧
@@ -258,19 +267,21 @@ theorem C12sign_bls24_315_setbytes_ok {G Fp : Type} [Add G] [Sub G] [Neg G] [Zer
 theorem C12sign_bls24_315_setbytes_err {G Fp : Type} [Add G] [Sub G] [Neg G] [Zero G] [SMul Int G] [Add Fp] [Sub Fp] [Mul Fp] [Inv Fp] [Zero Fp] [BEq Fp] (sq : Nat → Option Nat) (edA edD edCofactor : Fp) (edBase : G)
     (dec : Bytes → G) (decErr : Bytes → Res) (onC : G → Bool) (φ : G → Nat × Nat)
     (hdec : ∀ b, φ (dec b) = (SigParams.ed_bls24_315).decompress sq b) (honC : ∀ X, onC X = (SigParams.ed_bls24_315).onCurve (φ X))
-    (herr : ∀ b : Bytes, b.length = (SigParams.ed_bls24_315).size → decErr b = Res.ok) (R0 : G) (s0 buf : Bytes) (hs : s0.length = (SigParams.ed_bls24_315).size)
+    (herr : ∀ b : Bytes, b.length = (SigParams.ed_bls24_315).size → (decErr b = Res.ok ↔ (SigParams.ed_bls24_315).hasX sq b = true)) (R0 : G) (s0 buf : Bytes) (hs : s0.length = (SigParams.ed_bls24_315).size)
     (e : Err) (h : (SigParams.ed_bls24_315).sigParse sq buf = .error e) :
-    (eddsasig_bls24_315.Signature_SetBytes edA edD edCofactor ((SigParams.ed_bls24_315).order : Int) edBase dec decErr onC R0 s0 buf).2.1 = Res.err (edErrName e) ∧
+    (e ≠ .noSqrt → (eddsasig_bls24_315.Signature_SetBytes edA edD edCofactor ((SigParams.ed_bls24_315).order : Int) edBase dec decErr onC R0 s0 buf).2.1 = Res.err (edErrName e)) ∧
+    (eddsasig_bls24_315.Signature_SetBytes edA edD edCofactor ((SigParams.ed_bls24_315).order : Int) edBase dec decErr onC R0 s0 buf).2.1 ≠ Res.ok ∧
     (eddsasig_bls24_315.Signature_SetBytes edA edD edCofactor ((SigParams.ed_bls24_315).order : Int) edBase dec decErr onC R0 s0 buf).2.2.2 = s0 := by
   rw [C12sign_bls24_315_setbytes_shape]
-  exact ⟨(edSigSetBytesT_err (SigParams.ed_bls24_315) (by decide) sq edA edD edCofactor edBase dec decErr onC φ hdec honC herr R0 s0 buf hs e h).1, (edSigSetBytesT_err (SigParams.ed_bls24_315) (by decide) sq edA edD edCofactor edBase dec decErr onC φ hdec honC herr R0 s0 buf hs e h).2.1⟩
+  have t := edSigSetBytesT_err (SigParams.ed_bls24_315) (by decide) sq edA edD edCofactor edBase dec decErr onC φ hdec honC herr R0 s0 buf hs e h
+  exact ⟨t.1, t.2.1, t.2.2.1⟩
 
 /-- non-vacuity: the hypotheses hold for the model's own dictionary, for every buffer -/
 theorem C12sign_bls24_315_setbytes_model (sm : Nat → Nat × Nat → Nat × Nat) (sq : Nat → Option Nat)
     (edA edD edCofactor : EF (SigParams.ed_bls24_315).q) (edBase R0 : EdG (SigParams.ed_bls24_315) sm) (s0 buf : Bytes) (hs : s0.length = (SigParams.ed_bls24_315).size) :
     eddsasig_bls24_315.Signature_SetBytes (G := EdG (SigParams.ed_bls24_315) sm) (Fp := EF (SigParams.ed_bls24_315).q) edA edD edCofactor ((SigParams.ed_bls24_315).order : Int) edBase
-        (fun b => ⟨(SigParams.ed_bls24_315).decompress sq b⟩) (fun _ => Res.ok) (fun X => (SigParams.ed_bls24_315).onCurve X.p) R0 s0 buf
-      = edSigExpected (SigParams.ed_bls24_315) sq (fun b => (⟨(SigParams.ed_bls24_315).decompress sq b⟩ : EdG (SigParams.ed_bls24_315) sm)) R0 s0 buf := by
+        (fun b => ⟨(SigParams.ed_bls24_315).decompress sq b⟩) (edDecErr (SigParams.ed_bls24_315) sq) (fun X => (SigParams.ed_bls24_315).onCurve X.p) R0 s0 buf
+      = edSigExpected (SigParams.ed_bls24_315) sq (fun b => (⟨(SigParams.ed_bls24_315).decompress sq b⟩ : EdG (SigParams.ed_bls24_315) sm)) (edDecErr (SigParams.ed_bls24_315) sq) R0 s0 buf := by
   rw [C12sign_bls24_315_setbytes_shape]
   exact edSigSetBytesT_model (SigParams.ed_bls24_315) (by decide) sm sq edA edD edCofactor edBase R0 s0 buf hs
 
@@ -285,15 +296,15 @@ theorem C12sign_bls24_317_setbytes_shape {G Fp : Type} [Add G] [Sub G] [Neg G] [
 theorem C12sign_bls24_317_setbytes {G Fp : Type} [Add G] [Sub G] [Neg G] [Zero G] [SMul Int G] [Add Fp] [Sub Fp] [Mul Fp] [Inv Fp] [Zero Fp] [BEq Fp] (sq : Nat → Option Nat) (edA edD edCofactor : Fp) (edBase : G)
     (dec : Bytes → G) (decErr : Bytes → Res) (onC : G → Bool) (φ : G → Nat × Nat)
     (hdec : ∀ b, φ (dec b) = (SigParams.ed_bls24_317).decompress sq b) (honC : ∀ X, onC X = (SigParams.ed_bls24_317).onCurve (φ X))
-    (herr : ∀ b : Bytes, b.length = (SigParams.ed_bls24_317).size → decErr b = Res.ok) (R0 : G) (s0 buf : Bytes) (hs : s0.length = (SigParams.ed_bls24_317).size) :
-    eddsasig_bls24_317.Signature_SetBytes edA edD edCofactor ((SigParams.ed_bls24_317).order : Int) edBase dec decErr onC R0 s0 buf = edSigExpected (SigParams.ed_bls24_317) sq dec R0 s0 buf := by
+    (herr : ∀ b : Bytes, b.length = (SigParams.ed_bls24_317).size → (decErr b = Res.ok ↔ (SigParams.ed_bls24_317).hasX sq b = true)) (R0 : G) (s0 buf : Bytes) (hs : s0.length = (SigParams.ed_bls24_317).size) :
+    eddsasig_bls24_317.Signature_SetBytes edA edD edCofactor ((SigParams.ed_bls24_317).order : Int) edBase dec decErr onC R0 s0 buf = edSigExpected (SigParams.ed_bls24_317) sq dec decErr R0 s0 buf := by
   rw [C12sign_bls24_317_setbytes_shape]
   exact edSigSetBytesT_spec (SigParams.ed_bls24_317) (by decide) sq edA edD edCofactor edBase dec decErr onC φ hdec honC herr R0 s0 buf hs
 
 theorem C12sign_bls24_317_setbytes_ok {G Fp : Type} [Add G] [Sub G] [Neg G] [Zero G] [SMul Int G] [Add Fp] [Sub Fp] [Mul Fp] [Inv Fp] [Zero Fp] [BEq Fp] (sq : Nat → Option Nat) (edA edD edCofactor : Fp) (edBase : G)
     (dec : Bytes → G) (decErr : Bytes → Res) (onC : G → Bool) (φ : G → Nat × Nat)
     (hdec : ∀ b, φ (dec b) = (SigParams.ed_bls24_317).decompress sq b) (honC : ∀ X, onC X = (SigParams.ed_bls24_317).onCurve (φ X))
-    (herr : ∀ b : Bytes, b.length = (SigParams.ed_bls24_317).size → decErr b = Res.ok) (R0 : G) (s0 buf : Bytes) (hs : s0.length = (SigParams.ed_bls24_317).size)
+    (herr : ∀ b : Bytes, b.length = (SigParams.ed_bls24_317).size → (decErr b = Res.ok ↔ (SigParams.ed_bls24_317).hasX sq b = true)) (R0 : G) (s0 buf : Bytes) (hs : s0.length = (SigParams.ed_bls24_317).size)
     (k : Nat) (R : Nat × Nat) (s : Nat) (h : (SigParams.ed_bls24_317).sigParse sq buf = .ok (k, R, s)) :
     eddsasig_bls24_317.Signature_SetBytes edA edD edCofactor ((SigParams.ed_bls24_317).order : Int) edBase dec decErr onC R0 s0 buf
         = (((2 * (SigParams.ed_bls24_317).size : Nat) : Int), Res.ok, dec (buf.take (SigParams.ed_bls24_317).size), buf.drop (SigParams.ed_bls24_317).size) ∧
@@ -305,19 +316,21 @@ theorem C12sign_bls24_317_setbytes_ok {G Fp : Type} [Add G] [Sub G] [Neg G] [Zer
 theorem C12sign_bls24_317_setbytes_err {G Fp : Type} [Add G] [Sub G] [Neg G] [Zero G] [SMul Int G] [Add Fp] [Sub Fp] [Mul Fp] [Inv Fp] [Zero Fp] [BEq Fp] (sq : Nat → Option Nat) (edA edD edCofactor : Fp) (edBase : G)
     (dec : Bytes → G) (decErr : Bytes → Res) (onC : G → Bool) (φ : G → Nat × Nat)
     (hdec : ∀ b, φ (dec b) = (SigParams.ed_bls24_317).decompress sq b) (honC : ∀ X, onC X = (SigParams.ed_bls24_317).onCurve (φ X))
-    (herr : ∀ b : Bytes, b.length = (SigParams.ed_bls24_317).size → decErr b = Res.ok) (R0 : G) (s0 buf : Bytes) (hs : s0.length = (SigParams.ed_bls24_317).size)
+    (herr : ∀ b : Bytes, b.length = (SigParams.ed_bls24_317).size → (decErr b = Res.ok ↔ (SigParams.ed_bls24_317).hasX sq b = true)) (R0 : G) (s0 buf : Bytes) (hs : s0.length = (SigParams.ed_bls24_317).size)
     (e : Err) (h : (SigParams.ed_bls24_317).sigParse sq buf = .error e) :
-    (eddsasig_bls24_317.Signature_SetBytes edA edD edCofactor ((SigParams.ed_bls24_317).order : Int) edBase dec decErr onC R0 s0 buf).2.1 = Res.err (edErrName e) ∧
+    (e ≠ .noSqrt → (eddsasig_bls24_317.Signature_SetBytes edA edD edCofactor ((SigParams.ed_bls24_317).order : Int) edBase dec decErr onC R0 s0 buf).2.1 = Res.err (edErrName e)) ∧
+    (eddsasig_bls24_317.Signature_SetBytes edA edD edCofactor ((SigParams.ed_bls24_317).order : Int) edBase dec decErr onC R0 s0 buf).2.1 ≠ Res.ok ∧
     (eddsasig_bls24_317.Signature_SetBytes edA edD edCofactor ((SigParams.ed_bls24_317).order : Int) edBase dec decErr onC R0 s0 buf).2.2.2 = s0 := by
   rw [C12sign_bls24_317_setbytes_shape]
-  exact ⟨(edSigSetBytesT_err (SigParams.ed_bls24_317) (by decide) sq edA edD edCofactor edBase dec decErr onC φ hdec honC herr R0 s0 buf hs e h).1, (edSigSetBytesT_err (SigParams.ed_bls24_317) (by decide) sq edA edD edCofactor edBase dec decErr onC φ hdec honC herr R0 s0 buf hs e h).2.1⟩
+  have t := edSigSetBytesT_err (SigParams.ed_bls24_317) (by decide) sq edA edD edCofactor edBase dec decErr onC φ hdec honC herr R0 s0 buf hs e h
+  exact ⟨t.1, t.2.1, t.2.2.1⟩
 
 /-- non-vacuity: the hypotheses hold for the model's own dictionary, for every buffer -/
 theorem C12sign_bls24_317_setbytes_model (sm : Nat → Nat × Nat → Nat × Nat) (sq : Nat → Option Nat)
     (edA edD edCofactor : EF (SigParams.ed_bls24_317).q) (edBase R0 : EdG (SigParams.ed_bls24_317) sm) (s0 buf : Bytes) (hs : s0.length = (SigParams.ed_bls24_317).size) :
     eddsasig_bls24_317.Signature_SetBytes (G := EdG (SigParams.ed_bls24_317) sm) (Fp := EF (SigParams.ed_bls24_317).q) edA edD edCofactor ((SigParams.ed_bls24_317).order : Int) edBase
-        (fun b => ⟨(SigParams.ed_bls24_317).decompress sq b⟩) (fun _ => Res.ok) (fun X => (SigParams.ed_bls24_317).onCurve X.p) R0 s0 buf
-      = edSigExpected (SigParams.ed_bls24_317) sq (fun b => (⟨(SigParams.ed_bls24_317).decompress sq b⟩ : EdG (SigParams.ed_bls24_317) sm)) R0 s0 buf := by
+        (fun b => ⟨(SigParams.ed_bls24_317).decompress sq b⟩) (edDecErr (SigParams.ed_bls24_317) sq) (fun X => (SigParams.ed_bls24_317).onCurve X.p) R0 s0 buf
+      = edSigExpected (SigParams.ed_bls24_317) sq (fun b => (⟨(SigParams.ed_bls24_317).decompress sq b⟩ : EdG (SigParams.ed_bls24_317) sm)) (edDecErr (SigParams.ed_bls24_317) sq) R0 s0 buf := by
   rw [C12sign_bls24_317_setbytes_shape]
   exact edSigSetBytesT_model (SigParams.ed_bls24_317) (by decide) sm sq edA edD edCofactor edBase R0 s0 buf hs
 
@@ -332,15 +345,15 @@ theorem C12sign_bw6_633_setbytes_shape {G Fp : Type} [Add G] [Sub G] [Neg G] [Ze
 theorem C12sign_bw6_633_setbytes {G Fp : Type} [Add G] [Sub G] [Neg G] [Zero G] [SMul Int G] [Add Fp] [Sub Fp] [Mul Fp] [Inv Fp] [Zero Fp] [BEq Fp] (sq : Nat → Option Nat) (edA edD edCofactor : Fp) (edBase : G)
     (dec : Bytes → G) (decErr : Bytes → Res) (onC : G → Bool) (φ : G → Nat × Nat)
     (hdec : ∀ b, φ (dec b) = (SigParams.ed_bw6_633).decompress sq b) (honC : ∀ X, onC X = (SigParams.ed_bw6_633).onCurve (φ X))
-    (herr : ∀ b : Bytes, b.length = (SigParams.ed_bw6_633).size → decErr b = Res.ok) (R0 : G) (s0 buf : Bytes) (hs : s0.length = (SigParams.ed_bw6_633).size) :
-    eddsasig_bw6_633.Signature_SetBytes edA edD edCofactor ((SigParams.ed_bw6_633).order : Int) edBase dec decErr onC R0 s0 buf = edSigExpected (SigParams.ed_bw6_633) sq dec R0 s0 buf := by
+    (herr : ∀ b : Bytes, b.length = (SigParams.ed_bw6_633).size → (decErr b = Res.ok ↔ (SigParams.ed_bw6_633).hasX sq b = true)) (R0 : G) (s0 buf : Bytes) (hs : s0.length = (SigParams.ed_bw6_633).size) :
+    eddsasig_bw6_633.Signature_SetBytes edA edD edCofactor ((SigParams.ed_bw6_633).order : Int) edBase dec decErr onC R0 s0 buf = edSigExpected (SigParams.ed_bw6_633) sq dec decErr R0 s0 buf := by
   rw [C12sign_bw6_633_setbytes_shape]
   exact edSigSetBytesT_spec (SigParams.ed_bw6_633) (by decide) sq edA edD edCofactor edBase dec decErr onC φ hdec honC herr R0 s0 buf hs
 
 theorem C12sign_bw6_633_setbytes_ok {G Fp : Type} [Add G] [Sub G] [Neg G] [Zero G] [SMul Int G] [Add Fp] [Sub Fp] [Mul Fp] [Inv Fp] [Zero Fp] [BEq Fp] (sq : Nat → Option Nat) (edA edD edCofactor : Fp) (edBase : G)
     (dec : Bytes → G) (decErr : Bytes → Res) (onC : G → Bool) (φ : G → Nat × Nat)
     (hdec : ∀ b, φ (dec b) = (SigParams.ed_bw6_633).decompress sq b) (honC : ∀ X, onC X = (SigParams.ed_bw6_633).onCurve (φ X))
-    (herr : ∀ b : Bytes, b.length = (SigParams.ed_bw6_633).size → decErr b = Res.ok) (R0 : G) (s0 buf : Bytes) (hs : s0.length = (SigParams.ed_bw6_633).size)
+    (herr : ∀ b : Bytes, b.length = (SigParams.ed_bw6_633).size → (decErr b = Res.ok ↔ (SigParams.ed_bw6_633).hasX sq b = true)) (R0 : G) (s0 buf : Bytes) (hs : s0.length = (SigParams.ed_bw6_633).size)
     (k : Nat) (R : Nat × Nat) (s : Nat) (h : (SigParams.ed_bw6_633).sigParse sq buf = .ok (k, R, s)) :
     eddsasig_bw6_633.Signature_SetBytes edA edD edCofactor ((SigParams.ed_bw6_633).order : Int) edBase dec decErr onC R0 s0 buf
         = (((2 * (SigParams.ed_bw6_633).size : Nat) : Int), Res.ok, dec (buf.take (SigParams.ed_bw6_633).size), buf.drop (SigParams.ed_bw6_633).size) ∧
@@ -352,19 +365,21 @@ theorem C12sign_bw6_633_setbytes_ok {G Fp : Type} [Add G] [Sub G] [Neg G] [Zero 
 theorem C12sign_bw6_633_setbytes_err {G Fp : Type} [Add G] [Sub G] [Neg G] [Zero G] [SMul Int G] [Add Fp] [Sub Fp] [Mul Fp] [Inv Fp] [Zero Fp] [BEq Fp] (sq : Nat → Option Nat) (edA edD edCofactor : Fp) (edBase : G)
     (dec : Bytes → G) (decErr : Bytes → Res) (onC : G → Bool) (φ : G → Nat × Nat)
     (hdec : ∀ b, φ (dec b) = (SigParams.ed_bw6_633).decompress sq b) (honC : ∀ X, onC X = (SigParams.ed_bw6_633).onCurve (φ X))
-    (herr : ∀ b : Bytes, b.length = (SigParams.ed_bw6_633).size → decErr b = Res.ok) (R0 : G) (s0 buf : Bytes) (hs : s0.length = (SigParams.ed_bw6_633).size)
+    (herr : ∀ b : Bytes, b.length = (SigParams.ed_bw6_633).size → (decErr b = Res.ok ↔ (SigParams.ed_bw6_633).hasX sq b = true)) (R0 : G) (s0 buf : Bytes) (hs : s0.length = (SigParams.ed_bw6_633).size)
     (e : Err) (h : (SigParams.ed_bw6_633).sigParse sq buf = .error e) :
-    (eddsasig_bw6_633.Signature_SetBytes edA edD edCofactor ((SigParams.ed_bw6_633).order : Int) edBase dec decErr onC R0 s0 buf).2.1 = Res.err (edErrName e) ∧
+    (e ≠ .noSqrt → (eddsasig_bw6_633.Signature_SetBytes edA edD edCofactor ((SigParams.ed_bw6_633).order : Int) edBase dec decErr onC R0 s0 buf).2.1 = Res.err (edErrName e)) ∧
+    (eddsasig_bw6_633.Signature_SetBytes edA edD edCofactor ((SigParams.ed_bw6_633).order : Int) edBase dec decErr onC R0 s0 buf).2.1 ≠ Res.ok ∧
     (eddsasig_bw6_633.Signature_SetBytes edA edD edCofactor ((SigParams.ed_bw6_633).order : Int) edBase dec decErr onC R0 s0 buf).2.2.2 = s0 := by
   rw [C12sign_bw6_633_setbytes_shape]
-  exact ⟨(edSigSetBytesT_err (SigParams.ed_bw6_633) (by decide) sq edA edD edCofactor edBase dec decErr onC φ hdec honC herr R0 s0 buf hs e h).1, (edSigSetBytesT_err (SigParams.ed_bw6_633) (by decide) sq edA edD edCofactor edBase dec decErr onC φ hdec honC herr R0 s0 buf hs e h).2.1⟩
+  have t := edSigSetBytesT_err (SigParams.ed_bw6_633) (by decide) sq edA edD edCofactor edBase dec decErr onC φ hdec honC herr R0 s0 buf hs e h
+  exact ⟨t.1, t.2.1, t.2.2.1⟩
 
 /-- non-vacuity: the hypotheses hold for the model's own dictionary, for every buffer -/
 theorem C12sign_bw6_633_setbytes_model (sm : Nat → Nat × Nat → Nat × Nat) (sq : Nat → Option Nat)
     (edA edD edCofactor : EF (SigParams.ed_bw6_633).q) (edBase R0 : EdG (SigParams.ed_bw6_633) sm) (s0 buf : Bytes) (hs : s0.length = (SigParams.ed_bw6_633).size) :
     eddsasig_bw6_633.Signature_SetBytes (G := EdG (SigParams.ed_bw6_633) sm) (Fp := EF (SigParams.ed_bw6_633).q) edA edD edCofactor ((SigParams.ed_bw6_633).order : Int) edBase
-        (fun b => ⟨(SigParams.ed_bw6_633).decompress sq b⟩) (fun _ => Res.ok) (fun X => (SigParams.ed_bw6_633).onCurve X.p) R0 s0 buf
-      = edSigExpected (SigParams.ed_bw6_633) sq (fun b => (⟨(SigParams.ed_bw6_633).decompress sq b⟩ : EdG (SigParams.ed_bw6_633) sm)) R0 s0 buf := by
+        (fun b => ⟨(SigParams.ed_bw6_633).decompress sq b⟩) (edDecErr (SigParams.ed_bw6_633) sq) (fun X => (SigParams.ed_bw6_633).onCurve X.p) R0 s0 buf
+      = edSigExpected (SigParams.ed_bw6_633) sq (fun b => (⟨(SigParams.ed_bw6_633).decompress sq b⟩ : EdG (SigParams.ed_bw6_633) sm)) (edDecErr (SigParams.ed_bw6_633) sq) R0 s0 buf := by
   rw [C12sign_bw6_633_setbytes_shape]
   exact edSigSetBytesT_model (SigParams.ed_bw6_633) (by decide) sm sq edA edD edCofactor edBase R0 s0 buf hs
 
@@ -379,15 +394,15 @@ theorem C12sign_bw6_761_setbytes_shape {G Fp : Type} [Add G] [Sub G] [Neg G] [Ze
 theorem C12sign_bw6_761_setbytes {G Fp : Type} [Add G] [Sub G] [Neg G] [Zero G] [SMul Int G] [Add Fp] [Sub Fp] [Mul Fp] [Inv Fp] [Zero Fp] [BEq Fp] (sq : Nat → Option Nat) (edA edD edCofactor : Fp) (edBase : G)
     (dec : Bytes → G) (decErr : Bytes → Res) (onC : G → Bool) (φ : G → Nat × Nat)
     (hdec : ∀ b, φ (dec b) = (SigParams.ed_bw6_761).decompress sq b) (honC : ∀ X, onC X = (SigParams.ed_bw6_761).onCurve (φ X))
-    (herr : ∀ b : Bytes, b.length = (SigParams.ed_bw6_761).size → decErr b = Res.ok) (R0 : G) (s0 buf : Bytes) (hs : s0.length = (SigParams.ed_bw6_761).size) :
-    eddsasig_bw6_761.Signature_SetBytes edA edD edCofactor ((SigParams.ed_bw6_761).order : Int) edBase dec decErr onC R0 s0 buf = edSigExpected (SigParams.ed_bw6_761) sq dec R0 s0 buf := by
+    (herr : ∀ b : Bytes, b.length = (SigParams.ed_bw6_761).size → (decErr b = Res.ok ↔ (SigParams.ed_bw6_761).hasX sq b = true)) (R0 : G) (s0 buf : Bytes) (hs : s0.length = (SigParams.ed_bw6_761).size) :
+    eddsasig_bw6_761.Signature_SetBytes edA edD edCofactor ((SigParams.ed_bw6_761).order : Int) edBase dec decErr onC R0 s0 buf = edSigExpected (SigParams.ed_bw6_761) sq dec decErr R0 s0 buf := by
   rw [C12sign_bw6_761_setbytes_shape]
   exact edSigSetBytesT_spec (SigParams.ed_bw6_761) (by decide) sq edA edD edCofactor edBase dec decErr onC φ hdec honC herr R0 s0 buf hs
 
 theorem C12sign_bw6_761_setbytes_ok {G Fp : Type} [Add G] [Sub G] [Neg G] [Zero G] [SMul Int G] [Add Fp] [Sub Fp] [Mul Fp] [Inv Fp] [Zero Fp] [BEq Fp] (sq : Nat → Option Nat) (edA edD edCofactor : Fp) (edBase : G)
     (dec : Bytes → G) (decErr : Bytes → Res) (onC : G → Bool) (φ : G → Nat × Nat)
     (hdec : ∀ b, φ (dec b) = (SigParams.ed_bw6_761).decompress sq b) (honC : ∀ X, onC X = (SigParams.ed_bw6_761).onCurve (φ X))
-    (herr : ∀ b : Bytes, b.length = (SigParams.ed_bw6_761).size → decErr b = Res.ok) (R0 : G) (s0 buf : Bytes) (hs : s0.length = (SigParams.ed_bw6_761).size)
+    (herr : ∀ b : Bytes, b.length = (SigParams.ed_bw6_761).size → (decErr b = Res.ok ↔ (SigParams.ed_bw6_761).hasX sq b = true)) (R0 : G) (s0 buf : Bytes) (hs : s0.length = (SigParams.ed_bw6_761).size)
     (k : Nat) (R : Nat × Nat) (s : Nat) (h : (SigParams.ed_bw6_761).sigParse sq buf = .ok (k, R, s)) :
     eddsasig_bw6_761.Signature_SetBytes edA edD edCofactor ((SigParams.ed_bw6_761).order : Int) edBase dec decErr onC R0 s0 buf
         = (((2 * (SigParams.ed_bw6_761).size : Nat) : Int), Res.ok, dec (buf.take (SigParams.ed_bw6_761).size), buf.drop (SigParams.ed_bw6_761).size) ∧
@@ -399,19 +414,21 @@ theorem C12sign_bw6_761_setbytes_ok {G Fp : Type} [Add G] [Sub G] [Neg G] [Zero 
 theorem C12sign_bw6_761_setbytes_err {G Fp : Type} [Add G] [Sub G] [Neg G] [Zero G] [SMul Int G] [Add Fp] [Sub Fp] [Mul Fp] [Inv Fp] [Zero Fp] [BEq Fp] (sq : Nat → Option Nat) (edA edD edCofactor : Fp) (edBase : G)
     (dec : Bytes → G) (decErr : Bytes → Res) (onC : G → Bool) (φ : G → Nat × Nat)
     (hdec : ∀ b, φ (dec b) = (SigParams.ed_bw6_761).decompress sq b) (honC : ∀ X, onC X = (SigParams.ed_bw6_761).onCurve (φ X))
-    (herr : ∀ b : Bytes, b.length = (SigParams.ed_bw6_761).size → decErr b = Res.ok) (R0 : G) (s0 buf : Bytes) (hs : s0.length = (SigParams.ed_bw6_761).size)
+    (herr : ∀ b : Bytes, b.length = (SigParams.ed_bw6_761).size → (decErr b = Res.ok ↔ (SigParams.ed_bw6_761).hasX sq b = true)) (R0 : G) (s0 buf : Bytes) (hs : s0.length = (SigParams.ed_bw6_761).size)
     (e : Err) (h : (SigParams.ed_bw6_761).sigParse sq buf = .error e) :
-    (eddsasig_bw6_761.Signature_SetBytes edA edD edCofactor ((SigParams.ed_bw6_761).order : Int) edBase dec decErr onC R0 s0 buf).2.1 = Res.err (edErrName e) ∧
+    (e ≠ .noSqrt → (eddsasig_bw6_761.Signature_SetBytes edA edD edCofactor ((SigParams.ed_bw6_761).order : Int) edBase dec decErr onC R0 s0 buf).2.1 = Res.err (edErrName e)) ∧
+    (eddsasig_bw6_761.Signature_SetBytes edA edD edCofactor ((SigParams.ed_bw6_761).order : Int) edBase dec decErr onC R0 s0 buf).2.1 ≠ Res.ok ∧
     (eddsasig_bw6_761.Signature_SetBytes edA edD edCofactor ((SigParams.ed_bw6_761).order : Int) edBase dec decErr onC R0 s0 buf).2.2.2 = s0 := by
   rw [C12sign_bw6_761_setbytes_shape]
-  exact ⟨(edSigSetBytesT_err (SigParams.ed_bw6_761) (by decide) sq edA edD edCofactor edBase dec decErr onC φ hdec honC herr R0 s0 buf hs e h).1, (edSigSetBytesT_err (SigParams.ed_bw6_761) (by decide) sq edA edD edCofactor edBase dec decErr onC φ hdec honC herr R0 s0 buf hs e h).2.1⟩
+  have t := edSigSetBytesT_err (SigParams.ed_bw6_761) (by decide) sq edA edD edCofactor edBase dec decErr onC φ hdec honC herr R0 s0 buf hs e h
+  exact ⟨t.1, t.2.1, t.2.2.1⟩
 
 /-- non-vacuity: the hypotheses hold for the model's own dictionary, for every buffer -/
 theorem C12sign_bw6_761_setbytes_model (sm : Nat → Nat × Nat → Nat × Nat) (sq : Nat → Option Nat)
     (edA edD edCofactor : EF (SigParams.ed_bw6_761).q) (edBase R0 : EdG (SigParams.ed_bw6_761) sm) (s0 buf : Bytes) (hs : s0.length = (SigParams.ed_bw6_761).size) :
     eddsasig_bw6_761.Signature_SetBytes (G := EdG (SigParams.ed_bw6_761) sm) (Fp := EF (SigParams.ed_bw6_761).q) edA edD edCofactor ((SigParams.ed_bw6_761).order : Int) edBase
-        (fun b => ⟨(SigParams.ed_bw6_761).decompress sq b⟩) (fun _ => Res.ok) (fun X => (SigParams.ed_bw6_761).onCurve X.p) R0 s0 buf
-      = edSigExpected (SigParams.ed_bw6_761) sq (fun b => (⟨(SigParams.ed_bw6_761).decompress sq b⟩ : EdG (SigParams.ed_bw6_761) sm)) R0 s0 buf := by
+        (fun b => ⟨(SigParams.ed_bw6_761).decompress sq b⟩) (edDecErr (SigParams.ed_bw6_761) sq) (fun X => (SigParams.ed_bw6_761).onCurve X.p) R0 s0 buf
+      = edSigExpected (SigParams.ed_bw6_761) sq (fun b => (⟨(SigParams.ed_bw6_761).decompress sq b⟩ : EdG (SigParams.ed_bw6_761) sm)) (edDecErr (SigParams.ed_bw6_761) sq) R0 s0 buf := by
   rw [C12sign_bw6_761_setbytes_shape]
   exact edSigSetBytesT_model (SigParams.ed_bw6_761) (by decide) sm sq edA edD edCofactor edBase R0 s0 buf hs
 
